@@ -104,7 +104,7 @@ func Start(engine string) *Run {
 	flag.IntVar(&r.NBatch, "nbatch", 1, "number of batches")
 	flag.StringVar(&r.OutPath, "out", "", "part file to write")
 	flag.StringVar(&r.Replays, "replays", "/verif/replays", "replay directory")
-	flag.StringVar(&r.Known, "known", "/verif/KNOWN_FINDINGS.jsonl", "known findings file")
+	flag.StringVar(&r.Known, "known", "/verif/KNOWN_FINDINGS.txt", "known findings file")
 	flag.IntVar(&r.Workers, "workers", 0, "worker goroutines (0 = engine default)")
 	flag.StringVar(&r.Replay, "replay", "", "replay file")
 	flag.Parse()
@@ -122,7 +122,13 @@ func Start(engine string) *Run {
 	return r
 }
 
-// LoadFindings reads KNOWN_FINDINGS.jsonl; a missing file is an empty list.
+// LoadFindings reads the known-findings file; a missing file is an empty
+// list. Line formats (anything else is a comment):
+//
+//	known: property=<id> key=<stable witness key> <what fails>
+//	fixed: property=<id> <commit> key=<stable witness key> <what failed>
+//
+// Only "known" lines suppress anything; "fixed" lines are a record.
 func LoadFindings(path string) []Finding {
 	var out []Finding
 	b, err := os.ReadFile(path)
@@ -131,11 +137,32 @@ func LoadFindings(path string) []Finding {
 	}
 	for _, ln := range strings.Split(string(b), "\n") {
 		ln = strings.TrimSpace(ln)
-		if ln == "" || strings.HasPrefix(ln, "#") {
+		var status string
+		switch {
+		case strings.HasPrefix(ln, "known:"):
+			status = "known"
+		case strings.HasPrefix(ln, "fixed:"):
+			status = "fixed"
+		default:
 			continue
 		}
-		var f Finding
-		if err := json.Unmarshal([]byte(ln), &f); err == nil {
+		f := Finding{Status: status}
+		rest := strings.Fields(ln[len("known:"):])
+		var what []string
+		for _, w := range rest {
+			switch {
+			case strings.HasPrefix(w, "property=") && f.Property == "":
+				f.Property = strings.TrimPrefix(w, "property=")
+			case strings.HasPrefix(w, "key=") && f.Key == "":
+				f.Key = strings.TrimPrefix(w, "key=")
+			case status == "fixed" && f.Commit == "" && f.Property != "" && f.Key == "":
+				f.Commit = w
+			default:
+				what = append(what, w)
+			}
+		}
+		f.What = strings.Join(what, " ")
+		if f.Property != "" {
 			out = append(out, f)
 		}
 	}
